@@ -50,6 +50,21 @@ CLAIMED = {
         text="TLC checks for 5 grid shapes and levels 0..3 that the atoms the coupling sends to each coarse state are exactly the atoms of that state's cell in the level-(l-1) chain (valid for any weights), locality, and that the coarse coefficient / drift are the previous level's fine ones. Real one-dimensional couplings (every sampling method, lattice / geometric / probability-step grids, finite and infinite variation flag, sigma on/off) are driven through next_level up to 3 times; per level TLC validates on recorded exact data: nesting of the in-place refined grid, locality of every move, telescoping against the PREVIOUS level's recorded cells, coarse diffusion coefficient and deterministic drift = previous fine ones, both diffusion components = cumulative sums of the same scripted increments scaled by their own coefficient. The SDE coupling's hand-over of coefficient and drift (path_managers=None route) is validated too.",
         note="Trusted: TLC, atomic stubs, rank sensor. The Levy-copula coupling (d >= 2) is not yet validated by this check: a probe shows its coarse component does not have the previous level's rates for mixed-parity increments (DESIGN.md section 7, defect 10).",
         ref="5 (C03)"),
+    "C07": dict(
+        technique="TLA+ spec StdMC.tla (bookkeeping + integer statistics incl. one control variate) model-checked by TLC over all small integer sample sets; runs of the real standard engine on scripted paths trace-validated by TLC",
+        text="TLC checks for every integer sample set (length <= 4 over a 3-letter alphabet, with one control) the bookkeeping (row i = path i), non-negative error numerator, adjusted mean = raw mean when the control's sample mean is its price, adjusted variance <= raw variance. The real Engine.price is run on the same sets (and random longer ones) with a scripted process, scalar and vector strikes, 0-2 controls, notional / discount powers of two, spot statistics on/off; TLC validates on exact integers: each path stored once at its own index, price * n = sum, error^2 * n^2 (n-1) = n*sumsq - sum^2 per component, adjusted samples of one control, mean / variance relations with controls.",
+        note="Trusted: TLC, ScriptedProcess, exact-integer sensor. Two controls: only the mean and variance relations (quantised variance).",
+        ref="5 (C07)"),
+    "C15": dict(
+        technique="TLA+ spec Path.tla (running-sum predicates + design model of the epsilon-refinement) model-checked by TLC; paths of the real simulators with every random source scripted trace-validated by TLC",
+        text="TLC checks the refinement design (insert until every gap <= epsilon, INCLUDING the gap that ends at maturity) for all grids with <= 3 jump times on 8 ticks and 6 epsilons. The real direct / Markov-chain / coupled one-dimensional simulators in fixed-date, jump-time and maximum-step modes are run with scripted jump counts, jump times, jump sizes (state increments) and recognisable Brownian increments over several product-date sets; TLC validates: start at 0, strictly increasing times ending at maturity, product dates / jump times present, jump path = running sum of all jumps up to each time (both coupled components), k-th diffusion increment = sigma * sqrt(dt_k) * k-th variate, every step <= epsilon; the two refinement functions are also validated directly on integer arrays.",
+        note="Trusted: TLC, scripted sources, exact-integer sensor. Copula simulators are not driven yet.",
+        ref="5 (C15)"),
+    "C16": dict(
+        technique="TLA+ specs Sde.tla (Euler recursion and closed forms) and Discount.tla (piecewise simple compounding) model-checked by TLC; real MarkovChainSDE / CouplingSDE runs on scripted driver paths and df(t) of every model trace-validated by TLC",
+        text="TLC checks that the Euler recursion has the closed forms x0 + c*Y_T and x0*prod(1+dY_i) for all small driver paths, and df(0)=1, positivity, monotonicity of the compounding rule at every mesh time. The real schemes are run on scripted driver paths (increments, times and chain drift in quarters) for a = Constant and DiagX, single process and both components of the coupled pair with their own drifts; TLC validates every step of the solution in exact sixteenths and the time-step rule epsilon = h^BG. df(t) of LevyModel, ExponentialOfLevyModel, LevyCopulaModel, LevyDrivenSDEModel, LevyForwardModel (even / uneven tenors, copula driver), LevyLiborModel on a mesh with points at and next to each tenor: df(0)=1, positive, non-increasing, no jump.",
+        note="Trusted: TLC, scripted driver paths, exact / quantised sensors. One-dimensional driver only.",
+        ref="5 (C16)"),
 }
 
 NOT_APPLICABLE = {
